@@ -160,8 +160,10 @@ def reference_serialize(h, log, quoted):
             out += list(pb)
         out.append(10)
         for en in field(M, fa, FILE, 'entries').e:
-            out += [32, 32] + list(field(M, en, ENTRY, 'hash').buf.b) + [32]
             rs = list(field(M, en, ENTRY, 'line_ranges').e)
+            if not rs:
+                continue      # an entry lists at least one line; one that lists none is not written
+            out += [32, 32] + list(field(M, en, ENTRY, 'hash').buf.b) + [32]
 
             def start(r):
                 return r.f[0]
@@ -218,14 +220,18 @@ def logs_equivalent(h, a, b):
     """same files (in order), hashes, per-entry multiset of ranges, metadata"""
     P = h.P
     M = P.M
-    fa = [f for f in field(M, a, LOG, 'attestations').e if len(field(M, f, FILE, 'entries').e) > 0]
+    # information-free items are not part of a log's meaning: an entry that lists no line, a file without
+    # (such) entries
+    def live(f):
+        return [e for e in field(M, f, FILE, 'entries').e if len(field(M, e, ENTRY, 'line_ranges').e) > 0]
+    fa = [f for f in field(M, a, LOG, 'attestations').e if live(f)]
     fb = field(M, b, LOG, 'attestations').e
     if len(fa) != len(fb):
         return False, 'file count %d vs %d' % (len(fa), len(fb))
     conds = []
     for x, y in zip(fa, fb):
         conds.append(bytes_equal(field(M, x, FILE, 'file_path').buf.b, field(M, y, FILE, 'file_path').buf.b))
-        ex = field(M, x, FILE, 'entries').e
+        ex = live(x)
         ey = field(M, y, FILE, 'entries').e
         if len(ex) != len(ey):
             return False, 'entry count'
@@ -241,8 +247,6 @@ def ob_roundtrip(h, shape):
     M = P.M
     log = build_log(h, shape)
     known = path_classes(h, log)
-    if any(nr == 0 for f in shape['files'] for nr in f['entries']):
-        known = known + [('entry-without-ranges', z3.BoolVal(True))]
     h.sample = None
     try:
         r = P.call_named(LOG + '::serialize_to_string', [Ref(Cell(log))])
